@@ -51,7 +51,9 @@ func init() {
 			err error
 		}
 		raceCh := make(chan built, 1)
-		wantRace := r.Replay == ""
+		// VERIF_C13_NORACE=1 skips the -race leg (developer aid for mutation
+		// runs, where only the monitor's own verdicts matter).
+		wantRace := r.Replay == "" && os.Getenv("VERIF_C13_NORACE") == ""
 		if wantRace {
 			go func() {
 				bin, err := r.BuildGo("./cmd/vmon", "vmon-race", drv.BuildOpts{Tags: "verif", Race: true})
